@@ -1976,7 +1976,12 @@ namespace bloch::runtime {
                 }
             } else if (lit->literalType == "float") {
                 v.type = Value::Type::Float;
-                v.floatValue = std::stof(lit->value);
+                try {
+                    v.floatValue = std::stof(lit->value);
+                } catch (const std::exception&) {
+                    throw BlochError(ErrorCategory::Runtime, lit->line, lit->column,
+                                     "float literal '" + lit->value + "' is out of range");
+                }
             } else if (lit->literalType == "string") {
                 v.type = Value::Type::String;
                 if (lit->value.size() >= 2)
@@ -1991,7 +1996,12 @@ namespace bloch::runtime {
                     v.charValue = '\0';
             } else {
                 v.type = Value::Type::Int;
-                v.intValue = std::stoi(lit->value);
+                try {
+                    v.intValue = std::stoi(lit->value);
+                } catch (const std::exception&) {
+                    throw BlochError(ErrorCategory::Runtime, lit->line, lit->column,
+                                     "int literal '" + lit->value + "' is out of range");
+                }
             }
             return v;
         } else if (auto paren = dynamic_cast<ParenthesizedExpression*>(e)) {
